@@ -29,6 +29,7 @@ LEVEL_TEXT = ("Theorems over the command-dispatch model for every byte string an
               "code: all byte strings of length <= 1 (quick) / <= 2 (thorough) and generated/mutated messages (invalid UTF-8, partial and over-long "
               "matches, surrounding whitespace incl. non-ASCII) against generated command sets with mixed bytes/text commands and the shipped example "
               "adapters, through CommandAdapter.handle_message and the TcpIo handle function with fake streams; HTTP (Props/C18Http, model Core/Http: endpoint tables with literal and {name} segments, the post-hoc interrupt wrapper, aiohttp's indexed resolution and registration-order resolution, 404/405, refused tables): for every table and request the trace is [effect of the matched endpoint's own handler] ++ [interrupt iff declared] ++ [reply], nothing at all for an unmatched request, and permuting non-overlapping routes changes nothing; aiohttp's resolver is a parameter (any sound and complete resolver), its concrete algorithm is modelled by httpRequestIdx and compared on every run: generated HttpAdapter subclasses (1-6 endpoints, 0-5 interrupting, overlapping templates, duplicates) go through the real get_endpoints, HttpIo.create_route_definitions and a real aiohttp Application router (no network), and the observed effect / interrupt / reply events must equal the model's.")
+LEVEL_ADDENDUM = 'Session 8: every other non-interrupting command / endpoint is declared WITHOUT the interrupt argument (documented default); every third connection is greeted (on_connect replies written once, in order, first).'
 LEVEL_NOTE = "Trusts: Lean kernel; hand-written dispatch model; Python's re/codecs as the pattern/decoding oracle for the harness side; Lean's String.fromUTF8? as the UTF-8 validator of the model (differences from CPython's decoder would show up as divergences)."
 ASSUMPTIONS = ["commands are RegexCommand instances registered on adapter methods", "a connection's reply tasks write without blocking (fake writer)"]
 
